@@ -29,9 +29,10 @@ type knownBlock struct {
 }
 
 const (
-	planChaos       = 0 // random menu at every opportunity
-	planLockBreak   = 1 // partial commits + Byzantine leader proposing fresh blocks against locks, followed through
-	planStaleHighQC = 2 // withhold a PROPOSE_VOTE certificate, wait for a root-height bump, replay it as HighQc against newer locks
+	planChaos        = 0 // random menu at every opportunity
+	planLockBreak    = 1 // partial commits + Byzantine leader proposing fresh blocks against locks, followed through
+	planPartialLocks = 3 // leader messages reach only part of the replicas (partial locks, partial commits), election votes that reveal locks get lost, Byzantine leaders justify proposals with any certificate ever formed
+	planStaleHighQC  = 2 // withhold a PROPOSE_VOTE certificate, wait for a root-height bump, replay it as HighQc against newer locks
 )
 
 type adversary struct {
@@ -666,6 +667,33 @@ func (a *adversary) planPropose(n *node, m *bft.Message) bool {
 			}
 		}
 	}
+	if a.plan == planPartialLocks && c.T.Chance(3, 4) {
+		locks := a.aggregates(func(ag *voteAgg) bool {
+			h := ag.payload.Header
+			_, known := a.blocks[string(ag.payload.BlockHash)]
+			return h.Phase == lib.Phase_PROPOSE_VOTE && h.Height == m.Header.Height && a.full(ag) && known
+		})
+		if len(locks) > 0 {
+			// prefer a certificate for a block no correct replica has committed
+			pick := locks[c.T.Intn(len(locks))]
+			if rec, ok := w.firstAt[m.Header.Height]; ok {
+				for _, lk := range locks {
+					if !bytes.Equal(lk.payload.BlockHash, rec.blockHash) {
+						pick = lk
+					}
+				}
+			}
+			if hq := a.asQC(pick, true); hq != nil {
+				alt := &bft.Message{Header: m.Header.Copy(), Qc: &lib.QuorumCertificate{Header: m.Qc.Header, Results: hq.Results, ResultsHash: hq.ResultsHash,
+					Block: hq.Block, BlockHash: hq.BlockHash, ProposerKey: m.Qc.ProposerKey, Signature: m.Qc.Signature}, HighQc: hq, RcBuildHeight: m.RcBuildHeight}
+				c.Fault("byz_propose_justified_by_old_certificate")
+				c.Logf("adversary n%d proposes blk=%x justified by the certificate of rh%d/r%d", n.idx, hq.BlockHash[:3], pick.payload.Header.RootHeight, pick.payload.Header.Round)
+				a.follow[string(hq.BlockHash)] = true
+				a.signAndSend(n, alt, to, "byz-old-certificate")
+				return true
+			}
+		}
+	}
 	// otherwise: a fresh valid block that ignores every lock, pushed through all phases
 	alt := a.cloneProposeWithNewBlock(n, m, true)
 	if alt == nil {
@@ -701,6 +729,24 @@ func (a *adversary) planPropose(n *node, m *bft.Message) bool {
 func (a *adversary) blockedByPlan(from, to int, m *bft.Message) bool {
 	w := a.w
 	if a.plan == planChaos || w.faultsOff() || !m.IsProposerMessage() || from == to {
+		return false
+	}
+	if a.plan == planPartialLocks {
+		if w.nodes[to].byz || w.nodes[from].byz {
+			return false
+		}
+		switch m.Header.Phase {
+		case lib.Phase_PRECOMMIT:
+			if w.c.T.Chance(1, 2) {
+				w.c.Fault("precommit_message_lost_to_replica")
+				return true
+			}
+		case lib.Phase_COMMIT:
+			if w.c.T.Chance(2, 3) {
+				w.c.Fault("commit_message_withheld_from_replica")
+				return true
+			}
+		}
 		return false
 	}
 	if a.plan == planStaleHighQC && m.Header.Phase == lib.Phase_PROPOSE && m.Header.Round == 0 && len(a.withheld) == 0 && !w.nodes[from].byz && a.minRound > 0 {
@@ -758,6 +804,20 @@ func (a *adversary) worthReplaying(ag *voteAgg) bool {
 		if n.chainHeight() == h && n.bft.HighQC != nil && !bytes.Equal(n.bft.HighQC.BlockHash, ag.payload.BlockHash) {
 			return true
 		}
+	}
+	return false
+}
+
+// hidesLock: in the partial-locks plan election votes of locked correct replicas (they carry the
+// lock) are lost on their way to correct candidates half of the time, so leaders propose unaware of it.
+func (a *adversary) hidesLock(from, to int, m *bft.Message) bool {
+	w := a.w
+	if a.plan != planPartialLocks || w.faultsOff() || from == to || w.nodes[to].byz || w.nodes[from].byz {
+		return false
+	}
+	if m.IsReplicaMessage() && m.Qc.Header.Phase == lib.Phase_ELECTION_VOTE && m.HighQc != nil && w.c.T.Chance(1, 2) {
+		w.c.Fault("election_vote_with_lock_lost")
+		return true
 	}
 	return false
 }
